@@ -1,6 +1,7 @@
 package gofe
 
 import (
+	"math"
 	"fmt"
 	"go/token"
 	"go/types"
@@ -33,10 +34,74 @@ func ToFP(b *smt.Term) *smt.Term { return smt.Raw(fpTo(b.W), -1, fpSort(b.W), b)
 func FromFP(f *smt.Term, w int) *smt.Term { return smt.Raw("fp.to_ieee_bv", w, "", f) }
 
 func FPBin(op string, a, b *smt.Term) *smt.Term {
+	if a.IsConst() && b.IsConst() {
+		// both operands are concrete: IEEE-754 round-to-nearest-even arithmetic is
+		// what the host's float32 / float64 operations compute (NaN payloads are
+		// never compared)
+		if a.W == 64 {
+			x, y := math.Float64frombits(a.Uint()), math.Float64frombits(b.Uint())
+			var r float64
+			ok := true
+			switch op {
+			case "fp.add":
+				r = x + y
+			case "fp.sub":
+				r = x - y
+			case "fp.mul":
+				r = x * y
+			case "fp.div":
+				r = x / y
+			default:
+				ok = false
+			}
+			if ok {
+				return smt.Const(64, math.Float64bits(r))
+			}
+		} else if a.W == 32 {
+			x, y := math.Float32frombits(uint32(a.Uint())), math.Float32frombits(uint32(b.Uint()))
+			var r float32
+			ok := true
+			switch op {
+			case "fp.add":
+				r = x + y
+			case "fp.sub":
+				r = x - y
+			case "fp.mul":
+				r = x * y
+			case "fp.div":
+				r = x / y
+			default:
+				ok = false
+			}
+			if ok {
+				return smt.Const(32, uint64(math.Float32bits(r)))
+			}
+		}
+	}
 	return FromFP(smt.Raw(op+" RNE", -1, fpSort(a.W), ToFP(a), ToFP(b)), a.W)
 }
 
 func FPCmp(op string, a, b *smt.Term) *smt.Term {
+	if a.IsConst() && b.IsConst() && (a.W == 64 || a.W == 32) {
+		var x, y float64
+		if a.W == 64 {
+			x, y = math.Float64frombits(a.Uint()), math.Float64frombits(b.Uint())
+		} else {
+			x, y = float64(math.Float32frombits(uint32(a.Uint()))), float64(math.Float32frombits(uint32(b.Uint())))
+		}
+		switch op {
+		case "fp.eq":
+			return smt.Bool(x == y)
+		case "fp.lt":
+			return smt.Bool(x < y)
+		case "fp.leq":
+			return smt.Bool(x <= y)
+		case "fp.gt":
+			return smt.Bool(x > y)
+		case "fp.geq":
+			return smt.Bool(x >= y)
+		}
+	}
 	return smt.Raw(op, 0, "", ToFP(a), ToFP(b))
 }
 
